@@ -239,6 +239,71 @@ def network_routes(ctx, col, rng, tn0, netdesc):
             except tm.NotExact as e:
                 oracle(ctx, "norm", desc, ref, (), 2 * e0, n2, False, why=str(e))
         guarded("norm", r9)
+    # 8b. norm / overlap with explicit output labels: every label NOT requested is summed separately in ket and bra -
+    #     including labels that occur once (dangling) but are not requested - and requested ones are shared
+    def r9b():
+        cplx = np.iscomplexobj(base[0][1])
+        n2 = tn0.copy().norm(squared=True, output_inds=outs)
+        ref = conj_pair(base, outs)
+        desc = {**netdesc, "route": "norm[output_inds]", "outs": list(outs)}
+        ctx.count((netdesc["id"], "norm[output_inds]", outs), any(c == 1 and i not in outs for i, c in cnt.items()))
+        ctx.bump("route:norm[output_inds]")
+        shift = -2 * e0 if e0 < 0 else 0
+        try:
+            col.add(desc, tm.dense_check_expr(ref, (), 2 * e0 + shift, np.asarray([n2]) * 10.0 ** shift))
+        except tm.NotExact as e:
+            oracle(ctx, "norm[output_inds]", desc, ref, (), 2 * e0, n2, False, why=str(e))
+        # overlap with a twin (same structure, other data): <twin|tn> over the requested labels
+        twin = tn0.copy()
+        for t in twin.tensors:
+            t.modify(data=rand_array(rng, t.shape, cplx))
+        base2 = tm.qtn_tensors(twin)
+        ov = tn0.copy().overlap(twin, output_inds=outs)
+        bra = [(tuple(i if i in outs else i + "*" for i in inds), np.conj(arr)) for inds, arr in base2]
+        ref2 = bra + list(base)
+        desc2 = {**netdesc, "route": "overlap[output_inds]", "outs": list(outs)}
+        ctx.count((netdesc["id"], "overlap[output_inds]", outs), True)
+        ctx.bump("route:overlap[output_inds]")
+        try:
+            col.add(desc2, tm.dense_check_expr(ref2, (), 2 * e0 + shift, np.asarray([ov]) * 10.0 ** shift))
+        except tm.NotExact as e:
+            oracle(ctx, "overlap[output_inds]", desc2, ref2, (), 2 * e0, ov, False, why=str(e))
+    guarded("norm[output_inds]", r9b)
+    # 8c. a non-in-place PARTIAL contraction with norm equalisation / exponent stripping returns a network with the same
+    #     value AND leaves the queried network denoting the same value (later routes on it must still agree)
+    if not hyper and tn0.num_tensors >= 3:
+        for opt_name, opts in (("equalize_norms", {"equalize_norms": True}), ("strip_exponent", {"strip_exponent": True}),
+                               ("equalize_norms=1.0", {"equalize_norms": 1.0})):
+            def r9c(opt_name=opt_name, opts=opts):
+                t = tn0.copy()
+                part = rng.sample(tags, rng.randint(2, tn0.num_tensors - 1))
+                seq = [[g] for g in part[:2]]
+                # documented edge (E3): an exactly zero tensor / intermediate has no log10, its norm cannot be equalised
+                subts = [tt for tt in tn0.tensors if set(part[:2]) & set(tt.tags)]
+                rest_labels = {i for tt in tn0.tensors if not (set(part[:2]) & set(tt.tags)) for i in tt.inds}
+                sub_cnt = {}
+                for tt in subts:
+                    for i in tt.inds:
+                        sub_cnt[i] = sub_cnt.get(i, 0) + 1
+                sub_out = tuple(sorted(i for i, c in sub_cnt.items() if c == 1 or i in rest_labels))
+                sub_val = tm.np_dense([(tt.inds, np.asarray(tt.data)) for tt in subts], sub_out, 0)
+                if any(not np.any(np.asarray(tt.data)) for tt in tn0.tensors) or not np.any(sub_val):
+                    ctx.bump("equalize_of_exact_zero_skipped")
+                    return
+                r = t.contract_cumulative(seq, **opts)
+                if isinstance(r, tuple):
+                    r = r[0]
+                if isinstance(r, qtn.TensorNetwork):
+                    expect_network(f"contract_cumulative[partial,{opt_name}]", r, keep_open)
+                expect_network(f"contract_cumulative[partial,{opt_name}]:receiver_after", t, keep_open)
+                t2 = tn0.copy()
+                r2 = t2.contract_tags(part[:2], **opts)
+                if isinstance(r2, tuple):
+                    r2 = r2[0]
+                if isinstance(r2, qtn.TensorNetwork):
+                    expect_network(f"contract_tags[partial,{opt_name}]", r2, keep_open)
+                expect_network(f"contract_tags[partial,{opt_name}]:receiver_after", t2, keep_open)
+            guarded(f"contract_partial[{opt_name}]", r9c)
     # 9. trace and linear operator over a bipartition of the open labels
     opens = [i for i in natural]
     if len(opens) >= 2 and not hyper:
